@@ -144,3 +144,55 @@ Proof. induction steps as [|s rest IH]; intros st H; [exact I|]. cbn [idle_ok] i
     rewrite Cb in H1. apply andb_true_iff in H1. destruct H1 as [A B]. split; [now apply st_eqb_sound|].
     destruct (step_logs s); [reflexivity|discriminate].
   - intros Hk. apply N.ltb_lt in Hk. rewrite Hk in H2. apply eqb_prop in H2. exact H2. Qed.
+
+(* ---------- a whole harness case ---------- *)
+(* the spec part of check_case (code 2), named *)
+Definition trusted_of (untrusted : list N) : N -> bool := fun p => negb (memN p untrusted).
+Definition all_eligible_of (kind f : N) (members : list N) (all_trusted : bool) (steps : list astep) : bool :=
+  negb (match steps with [] => true | _ => false end)
+  && forallb (fun s => negb (step_fol s) && negb ((kind <? 3)%N && step_norep s)) steps
+  && negb (kind =? 1)%N && all_trusted
+  && (if (kind =? 2)%N then true
+      else seteqb (map (fun s => fst (fst (fst (fst (fst s))))) steps)
+                  (filter (fun p => negb ((kind <? 2)%N && (p =? f)%N)) members)).
+
+Record scenario_spec (rv : bool) (members untrusted : list N) (ms : list metric) (ls : list (N * list N))
+       (st0 : pinset) (kind f : N) (steps : list astep) (cs : list cobs) : Prop := {
+  ss_one_entry : NoDup (akeys (final_state st0 steps));
+  ss_idle : idle_spec kind st0 steps;
+  ss_closest : one_closest_ok members (forallb (trusted_of untrusted) members) cs = true;
+  (* nothing is removed (nor added) by re-pinning; an expiry sweep adds nothing *)
+  ss_keys : ((kind < 3)%N -> forall h, In h (akeys st0) <-> In h (akeys (final_state st0 steps))) /\
+            (~ (kind < 3)%N -> incl (akeys (final_state st0 steps)) (akeys st0));
+  ss_repin : (kind < 3)%N -> forall c x, In (c, x) st0 ->
+      repin_clause 0 rv ms (forallb (trusted_of untrusted) members)
+        (all_eligible_of kind f members (forallb (trusted_of untrusted) members) steps) f st0 (final_state st0 steps) steps c x;
+  ss_sync : ~ (kind < 3)%N -> forall c x, In (c, x) st0 ->
+      sync_clause 0 ls (forallb (trusted_of untrusted) members)
+        (all_eligible_of kind f members (forallb (trusted_of untrusted) members) steps) st0 (final_state st0 steps) steps c x
+}.
+
+Theorem check_case_sound_l id dmin dmax rv hpt hct members untrusted ms ls st0l kind f steps cs :
+  NoDup (map mpeer ms) ->
+  (forall t, ~ In (id, 2%N, t)
+     (check_case (id, (dmin, dmax, rv, hpt, hct, members, untrusted, ms, ls, st0l, (kind, f, steps), cs)))) ->
+  scenario_spec rv members untrusted ms ls (of_list st0l) kind f steps cs.
+Proof. intros Hms H. cbn [check_case] in H. cbv zeta in H.
+  fold (trusted_of untrusted) in H. set (at_ := forallb (trusted_of untrusted) members) in *.
+  fold (all_eligible_of kind f members at_ steps) in H. set (ae := all_eligible_of kind f members at_ steps) in *.
+  set (st0 := of_list st0l) in *. set (stF := final_state st0 steps) in *.
+  match type of H with forall t, ~ In _ (_ ++ (if ?g && ?b then [] else _)) => assert (G : g && b = true) end.
+  { match goal with |- ?g && ?b = true => destruct (g && b) eqn:E; auto end.
+    exfalso. eapply H. apply in_or_app. right. left. reflexivity. }
+  clear H. rewrite !andb_true_iff in G. destruct G as [[[[G1 G2] G3] G4] G5].
+  assert (Bad : (if (kind <? 3)%N then repin_bad 0 rv ms at_ ae f st0 stF steps else sync_bad 0 ls at_ ae st0 stF steps) = []).
+  { match type of G5 with match ?b with [] => _ | _ => _ end = true => destruct b; [reflexivity|discriminate] end. }
+  constructor.
+  - now apply nodupb_NoDup.
+  - now apply idle_ok_sound.
+  - exact G3.
+  - split; intros Hk.
+    + apply N.ltb_lt in Hk. rewrite Hk in G4. now apply same_keys_sound.
+    + apply N.ltb_nlt in Hk. rewrite Hk in G4. now apply subsetb_incl.
+  - intros Hk. apply N.ltb_lt in Hk. rewrite Hk in Bad. now apply repin_monitor_sound_l.
+  - intros Hk. apply N.ltb_nlt in Hk. rewrite Hk in Bad. now apply sync_monitor_sound_l. Qed.
